@@ -910,7 +910,8 @@ class Interp:
                         continue
                     if k not in o:
                         raise Raise("KeyError: %r" % (k,), e)
-                    yield o[k], env2, st2
+                    yield (o[k].value if isinstance(o[k], EnumMember)
+                           else o[k]), env2, st2
                 elif isinstance(o, Registry):
                     k = self.ev1(e.slice, env2, st2, ctx)
                     for v, e3, s3 in self.regget(o, [k, ("__missing__",)],
@@ -1640,6 +1641,8 @@ class Interp:
                 return
             if k in d:
                 v = d[k]
+                if isinstance(v, EnumMember):
+                    v = v.value       # members are carried as their values
             elif len(args) > 1:
                 v = args[1]
             elif f[0] == "dictget":
@@ -1984,14 +1987,20 @@ def _sync_iv(env, st):
 
 
 def _replace(env, st, old, new):
+    """The parameter `old.name` is now known to lie in `new`: every holder
+    of that parameter's interval sees it (matched by the parameter's name -
+    a forked environment holds copies, so identity is not enough)."""
     st.ivref[old.name] = new
+
+    def same(v):
+        return v is old or (isinstance(v, IvInt) and v.name == old.name)
     for k, v in list(env.items()):
-        if v is old:
+        if same(v):
             env[k] = new
     for cell in st.heap.values():
         if isinstance(cell, Obj):
             for k, v in list(cell.f.items()):
-                if v is old:
+                if same(v):
                     cell.f[k] = new
 
 
